@@ -279,7 +279,7 @@ def run(ctx):
             ctx.violation('pointer-level model and implementation disagree: ' + c, {'case': c, 'impl': a, 'model': b,
                           'cmd': 'echo "%s" | build/C14/harness_%s' % (c, c.split()[0])}, found_input=True)
     # the property predicate on the real code (always; bigger generator when a stage broke = the search stage)
-    if any(not s['ok'] for s in ctx.stages.values()) and scale == 1:
+    if any(not s['ok'] for s in ctx.stages.values()) and scale == 1 and not ctx.violations:
         ctx.log('a stage broke: searching the implementation with the thorough generator')
         extra = [c for c in gen_cases(ctx, 4) if c not in set(cases)]
         more, _ = run_impl_cases(ctx, extra, 'search')
